@@ -72,7 +72,7 @@ class ModuleIndexPage(Page):
     @renderer
     def stuff(self, request: object, tag: Tag) -> Tag:
         tag.clear()
-        tag([moduleSummary(o, self.filename) for o in self.system.rootobjects])
+        tag([moduleSummary(o, self.filename) for o in self.system.rootobjects if o.isVisible])
         return tag
 
     @renderer
@@ -308,6 +308,8 @@ class IndexPage(Page):
     def roots(self, request: object, tag: Tag) -> "Flattenable":
         r = []
         for o in self.system.rootobjects:
+            if not o.isVisible:
+                continue
             r.append(tag.clone().fillSlots(root=tags.code(
                 linker.taglink(o, self.filename)
                 )))
@@ -315,7 +317,7 @@ class IndexPage(Page):
 
     @renderer
     def rootkind(self, request: object, tag: Tag) -> Tag:
-        rootkinds = sorted(set([o.kind for o in self.system.rootobjects]), key=lambda k:k.name)
+        rootkinds = sorted(set([o.kind for o in self.system.rootobjects if o.isVisible]), key=lambda k:k.name)
         return tag.clear()('/'.join(
              epydoc2stan.format_kind(o, plural=True).lower()
              for o in rootkinds ))
